@@ -227,6 +227,8 @@ def run_resolution(case, res):
     L = _st["TemplateLookup"]
     for sites, read, strict, li in case["items"]:
         name = "abs" if "builtin" in sites else "xv"
+        if name == "xv" and read in ("nesteddefault", "attr", "elif"):
+            name = "trim"  # a name that is also a filter shortcut: as a variable it resolves like any other
         exp = expected(sites, read, name)
         res.evaluations += 1
         if exp is None:
